@@ -20,6 +20,7 @@ import engine
 from engine import Op, set_mode
 
 PROP = "C19"
+QUICK_BOOST = 2
 LEAN_MODULES = ["IsoDT.Props.C19"]
 RULE = ("argument vectors built from valid date-times in every notation (ISO basic/extended, reduced, week, "
         "ordinal, the strptime-able notations), 0-3 offsets of either sign incl. -P... spellings and every "
